@@ -329,15 +329,41 @@ func CondIfs(fn *ssa.Function, match func(cond ssa.Value) bool) []CondIf {
 // cycle with it (the loop header), or nil if i is not in a loop.
 func LoopHeaderOf(i ssa.Instruction) *ssa.BasicBlock {
 	b := i.Block()
-	reach := blockReach(b)
 	for d := b; d != nil; d = d.Idom() {
+		var reach map[*ssa.BasicBlock]bool
 		for _, p := range d.Preds {
-			if (p == d || d.Dominates(p)) && (p == b || reach[p]) {
-				return d // back edge p -> d, and b lies in that loop
+			if p != d && !d.Dominates(p) {
+				continue
+			}
+			// back edge p -> d; b is in that natural loop iff b reaches p without passing d
+			if p == b || d == b {
+				return d
+			}
+			if reach == nil {
+				reach = blockReachAvoiding(b, d)
+			}
+			if reach[p] {
+				return d
 			}
 		}
 	}
 	return nil
+}
+
+// blockReachAvoiding: blocks reachable from b's successors without entering `avoid`.
+func blockReachAvoiding(b, avoid *ssa.BasicBlock) map[*ssa.BasicBlock]bool {
+	seen := map[*ssa.BasicBlock]bool{}
+	work := append([]*ssa.BasicBlock{}, b.Succs...)
+	for len(work) > 0 {
+		x := work[len(work)-1]
+		work = work[:len(work)-1]
+		if seen[x] || x == avoid {
+			continue
+		}
+		seen[x] = true
+		work = append(work, x.Succs...)
+	}
+	return seen
 }
 
 // blockReach: blocks reachable from b's successors.
